@@ -64,6 +64,16 @@ def gen_cases(c, rng, shard):
     if c.xfer in ("alloc", "read", "write", "allocarg"):
         for a in harness.huge_cases(c, rng):
             yield "huge", a
+    wname = next((k for k, spec in c.args.items() if spec[0] == "wdata"), None)
+    if wname:
+        # TRANSFER LENGTH is the caller's, whatever the size of the buffer he hands over: zero blocks with a (pool) buffer of some
+        # blocks, n blocks with a larger buffer
+        for i in range(12 if shard["small"] else 60):
+            a = harness.random_args(c, rng)
+            bs = a.get("blocksize") or 512
+            a["tl"] = 0 if i % 2 == 0 else rng.choice([1, 2, 7, 8])
+            a[wname] = harness.pattern_bytes((a["tl"] + rng.choice([1, 1, 2, 8, 16])) * bs + rng.choice([0, 0, 1, bs // 2]), i)
+            yield "buffer_larger_than_transfer", a
     if c.xfer in ("alloc", "read", "allocarg") and not shard["small"]:
         from vmon.spec import cdb as S
 
@@ -165,6 +175,19 @@ def run_one(ctx, c, setname, kind, a, do_facade, transports):
                 ctx.count("cdbs_checked_after_copy_edit")
             except Exception as e:  # noqa: BLE001
                 ctx.fail("C01:%s.deepcopy_raises.%s" % (c.name, type(e).__name__), "copy.deepcopy(cmd) raised %s" % e, {"cmd": c.name, "args": a}, exc=e)
+        if TICK[0] % 6 == 2:
+            # a shallow copy that is given a CDB of its own (a template command copied per extent, `c.cdb = c.build_cdb(...)` or any
+            # other bytearray assigned): the template keeps the CDB it was built with
+            import copy as _copy
+
+            try:
+                twin = _copy.copy(cmd)
+                twin.cdb = bytearray(b ^ 0xFF for b in cmd.cdb)
+                twin.cdb = bytearray(len(cmd.cdb))
+                observe(ctx, c, setname, "after_shallow_copy_reassigned", full, cmd.cdb, c.op)
+                ctx.count("cdbs_checked_after_shallow_copy")
+            except Exception as e:  # noqa: BLE001
+                ctx.fail("C01:%s.copy_raises.%s" % (c.name, type(e).__name__), "copy.copy(cmd) / assigning its cdb raised %s" % e, {"cmd": c.name, "args": a}, exc=e)
         if hasattr(cmd, "print_cdb") and TICK[0] % 5 == 0:
             import contextlib
             import io
